@@ -89,22 +89,22 @@ pub fn run_libfuzzer(ctx: &Ctx, target: &str, runs: u64, max_len: u32) -> Option
 }
 
 /// Run the structured `filter_ops` target and report artifacts that decode to a case of the
-/// given property (`which`: 0 = C12, 1 = C13, 2 = C14) through that property's own oracle.
+/// given property (`which`: 0 = C12, 1 = C13, 2 = C14, 3 = C01) through that property's own oracle.
 pub fn run_filter_ops(ctx: &Ctx, which: u8, runs: u64) {
     use crate::engine::{guarded_eval, Verdict};
-    use crate::props::{c12, c13, c14, fuzzdecode};
+    use crate::props::{c01, c12, c13, c14, fuzzdecode};
     use arbitrary::Unstructured;
     let Some(o) = run_libfuzzer(ctx, "filter_ops", runs, 1024) else { return };
     ctx.add_evaluations(
         "libfuzzer_filter_ops",
         o.executed,
-        serde_json::json!({"engine": "libFuzzer", "target": "filter_ops (bytes decoded into C12/C13/C14 cases)", "executed_units": o.executed, "corpus_seeded_from": "harness/fuzz/seeds/filter_ops"}),
+        serde_json::json!({"engine": "libFuzzer", "target": "filter_ops (bytes decoded into C12/C13/C14/C01 cases)", "executed_units": o.executed, "corpus_seeded_from": "harness/fuzz/seeds/filter_ops"}),
     );
     ctx.note("libfuzzer_filter_ops", o.note.clone());
     for a in &o.artifacts {
         let Ok(bytes) = std::fs::read(a) else { continue };
         let mut u = Unstructured::new(&bytes);
-        let Ok(w) = u.int_in_range(0u8..=2) else { continue };
+        let Ok(w) = u.int_in_range(0u8..=3) else { continue };
         let (sub, case, verdict): (&str, serde_json::Value, Verdict) = match w {
             0 => match fuzzdecode::c12(&mut u) {
                 Ok(c) => ("failing_calls", serde_json::to_value(&c).unwrap(), guarded_eval(&c12::C12, &c)),
@@ -114,8 +114,12 @@ pub fn run_filter_ops(ctx: &Ctx, which: u8, runs: u64) {
                 Ok(c) => ("random_history", serde_json::to_value(&c).unwrap(), guarded_eval(&c13::Random, &c)),
                 Err(_) => continue,
             },
-            _ => match fuzzdecode::c14(&mut u) {
+            2 => match fuzzdecode::c14(&mut u) {
                 Ok(c) => ("random_history", serde_json::to_value(&c).unwrap(), guarded_eval(&c14::Random, &c)),
+                Err(_) => continue,
+            },
+            _ => match fuzzdecode::c01(&mut u) {
+                Ok(c) => ("history", serde_json::to_value(&c).unwrap(), guarded_eval(&c01::C01, &c)),
                 Err(_) => continue,
             },
         };
